@@ -218,6 +218,12 @@ func runBehaviour(w *World, beh []Step, idx int, rep *vh.Report, dir, shm string
 		if s.Fault == "" {
 			s.Fault = "none"
 		}
+		if s.Replay == "" {
+			s.Replay = "none"
+		}
+		if s.Cand.IsReplay() != (s.Replay != "none") {
+			panic(infra("step's replay class and candidate disagree: " + s.Cand.String() + " / " + s.Replay))
+		}
 		held := none
 		if h, ok := s.Pre[s.Log]; ok {
 			held = h
@@ -297,15 +303,21 @@ func runBehaviour(w *World, beh []Step, idx int, rep *vh.Report, dir, shm string
 // reqClass names the spelling / fault class of a request for fingerprints ("plain" for the configured
 // spelling on a healthy database).
 func reqClass(s Step) string {
-	switch {
-	case s.Sp != "canon" && s.Fault != "none":
-		return "sp=" + s.Sp + ",fault=" + s.Fault
-	case s.Sp != "canon":
-		return "sp=" + s.Sp
-	case s.Fault != "none":
-		return "fault=" + s.Fault
+	var parts []string
+	if s.Sp != "canon" {
+		parts = append(parts, "sp="+s.Sp)
 	}
-	return "plain"
+	if s.Fault != "none" {
+		parts = append(parts, "fault="+s.Fault)
+	}
+	// a replayed signature: whether its donor was offered to the witness earlier in this history
+	if s.Replay != "none" && s.Replay != "" {
+		parts = append(parts, "replay="+s.Replay)
+	}
+	if len(parts) == 0 {
+		return "plain"
+	}
+	return strings.Join(parts, ",")
 }
 
 func pfClass(s Step) string {
@@ -380,9 +392,10 @@ func TestTrace(t *testing.T) {
 	if err != nil {
 		t.Fatal(err)
 	}
-	rep := vh.NewReport("c19-trace", "concurrent Update/GetSTH callers on one real witness (file sqlite, one connection, -race), log ids in several spellings, in every second trace another connection takes SHARED / RESERVED / EXCLUSIVE locks for a while (logged fault windows); invoke/return histories checked for linearizability by WitnessTrace.tla; non-trivial = trace in which at least two updates were stored")
+	rep := vh.NewReport("c19-trace", "concurrent Update/GetSTH callers on one real witness (file sqlite, one connection, -race), log ids in several spellings, about one update in ten carrying the signature bytes of a genuine STH offered earlier in the trace (by any caller, possibly still in flight) over another content with a proof correct for the forged tree, in every second trace another connection takes SHARED / RESERVED / EXCLUSIVE locks for a while (logged fault windows); invoke/return histories checked for linearizability by WitnessTrace.tla; non-trivial = trace in which at least two updates were stored")
 	dir := t.TempDir()
 	shm := dbDir(t)
+	var forged atomic.Int64
 	for tr := 0; tr < ntraces; tr++ {
 		faulty := tr%2 == 1
 		dsn := filepath.Join(dir, fmt.Sprintf("t%d.db", tr))
@@ -398,6 +411,10 @@ func TestTrace(t *testing.T) {
 		var wg sync.WaitGroup
 		var stored sync.Map
 		var ops atomic.Int64
+		// genuine STHs offered so far in this trace, per log: the donors of replayed signatures.  An STH is listed
+		// before its own update is sent, so a replay may overtake or overlap the update that carries the donor.
+		var dmu sync.Mutex
+		donors := map[string][]Cand{}
 		done := make(chan struct{})
 		holderDone := make(chan struct{})
 		if faulty {
@@ -475,6 +492,9 @@ func TestTrace(t *testing.T) {
 					if cand.Size >= belief[log] && rng.Intn(3) > 0 && belief[log] < maxSize {
 						cand.Size = belief[log] + 1 + rng.Intn(maxSize-belief[log])
 					}
+					if cand.Fam == "F" && cand.Size <= w.ForkAt {
+						cand.Fam = "H" // (the size may have gone down to the fork point)
+					}
 					switch rng.Intn(10) {
 					case 0:
 						cand.Signer = "bad"
@@ -485,6 +505,26 @@ func TestTrace(t *testing.T) {
 					}
 					if log == "LX" {
 						cand.Signer = "bad"
+					}
+					cand.Over = NoDonor
+					if cand.Signer != "bad" {
+						dmu.Lock()
+						from := log
+						if rng.Intn(8) == 0 { // now and then the signature of an STH of the other log
+							from = map[string]string{"L1": "L2", "L2": "L1"}[log]
+						}
+						if ds := donors[from]; len(ds) > 0 && rng.Intn(5) == 0 {
+							// the content drawn above under the signature bytes of a genuine STH offered before
+							g := ds[rng.Intn(len(ds))]
+							if g.Size == cand.Size && g.TS == cand.TS && bytes.Equal(w.Root(g), w.Root(cand)) {
+								cand.TS = 3 - cand.TS // the donor's own content: its signature would be a good one
+							}
+							cand = Forge(cand.Fam, cand.Size, cand.TS, cand.Idf, g)
+							forged.Add(1)
+						} else {
+							donors[log] = append(donors[log], cand)
+						}
+						dmu.Unlock()
 					}
 					pf := "junk"
 					if rng.Intn(6) > 0 {
@@ -542,6 +582,10 @@ func TestTrace(t *testing.T) {
 		t.Fatal(err)
 	}
 	rep.Extra["events"] = rec.N
+	rep.Extra["replayed_signatures_offered"] = forged.Load()
+	if forged.Load() == 0 {
+		t.Fatal("no update with a replayed signature was generated")
+	}
 	if err := rep.Write(); err != nil {
 		t.Fatal(err)
 	}
